@@ -117,8 +117,35 @@ def hist(xs):
         h[str(x)] = h.get(str(x), 0) + 1
     return h
 
+def build_cli():
+    env = dict(wvlib.ENV, CARGO_TARGET_DIR=f'{VERIF}/harness/target-cli')
+    rc, out, dt = sh(['cargo', 'build', '--offline', '--release', '-p', 'weechess_cli'], cwd='/repo', env=env, timeout=2400)
+    b = f'{VERIF}/harness/target-cli/release/weechess'
+    return rc == 0 and os.path.exists(b), out[-2000:], b
+
 def check_C01(chk, binp):
-    check_movegen(chk, binp, 'C01')
+    pos, impl = check_movegen(chk, binp, 'C01')
+    # the CLI observation point: `weechess perft --fen F --depth d` (release binary built from /repo) against Rules.perft
+    ok, msg, cli = build_cli()
+    chk.oblig('build of the weechess CLI (release) from /repo', ok, '' if ok else msg)
+    if not ok:
+        chk.violation('weechess_cli does not build: ' + msg[-600:], {'kind': 'build', 'log': msg}, found_input=False)
+        return
+    sel = G.corpus()[:12] if chk.tier == 'quick' else G.corpus()
+    sel = G.filter_legal(sel, 'C01-cli-lp')
+    d = 2
+    spec = run_cases(MODEL, ['specperft\t%d\t%s' % (d, f) for f in sel], 'C01-cli-spec')
+    bad = []
+    for f, sp in zip(sel, spec):
+        rc, out, _ = sh([cli, 'perft', '--fen', f, '--depth', str(d)], timeout=120)
+        m = re.search(r'Total nodes:\s*(\d+)', out)
+        got = m.group(1) if m else 'no-output(rc=%s)' % rc
+        if got != sp:
+            bad.append((f, got, sp))
+    chk.streams.append({'name': 'CLI `weechess perft --depth 2` totals', 'against': 'extracted Rules.perft', 'cases': len(sel), 'disagreements': len(bad)})
+    chk.evaluations += len(sel)
+    for f, got, sp in bad[:3]:
+        chk.violation('weechess perft --fen %r --depth %d prints %s, the rules give %s' % (f, d, got, sp), {'kind': 'input', 'fen': f, 'cli': got, 'spec': sp}, found_input=True)
 
 def check_C02(chk, binp):
     pos, impl = check_movegen(chk, binp, 'C02')
@@ -1124,7 +1151,7 @@ def check_C06(chk, binp):
     single = [i for i, m in enumerate(meta) if m[4] == 1 and m[3] <= (3 if quick else 4)]      # the extracted model is slow on deep searches
     model = run_cases(MODEL, [cases[i] for i in single], 'C06-model')
     bm = [single[j] for j in stream(chk, 'single worker: events + node trace on mate positions', [cases[i] for i in single], [impl[i] for i in single], model, 'extracted search model')]
-    incomplete = []; wrongmove = []; claims = []
+    incomplete = []; wrongmove = []; claims = []; mw_suspects = []
     for i, (m, out) in enumerate(zip(meta, impl)):
         f, n, keep, d, workers = m
         ps = parse_search(out)
@@ -1138,10 +1165,31 @@ def check_C06(chk, binp):
         if n is not None:
             if ev < 10000:
                 incomplete.append((i, 'forced mate in %d plies, depth %d, reported %d' % (n, d, ev)))
-            elif workers == 1:
+            else:
                 o, t, p = raw_coords(line[0])
                 if (o, t, p) not in keep:
-                    wrongmove.append((i, 'first move %d->%d does not keep the forced mate (within %d plies)' % (o, t, MAXN - 1)))
+                    # not among the moves that mate within the shortest-mate bound: the engine may legitimately report a LONGER
+                    # mate (mate scores stored in the table carry the ply at which they were found); decide with a deeper bound
+                    mw_suspects.append((i, f, line[0]))
+    # several workers may report a LONGER mate than the shortest one: their first move is checked with a deeper solver bound;
+    # a move that loses the mate is a violation, one the bound cannot decide is counted
+    if mw_suspects:
+        kr2 = run_cases(MODEL, ['speckeeps\t%s\t%s\t8' % (f, mv) for (i, f, mv) in mw_suspects], 'C06-mwkeeps', timeout=1500)
+        def coord(raw):
+            o, t, p = raw_coords(raw)
+            return 'abcdefgh'[o % 8] + str(o // 8 + 1) + 'abcdefgh'[t % 8] + str(t // 8 + 1) + {0: '', 2: 'n', 3: 'b', 4: 'r', 5: 'q'}[p]
+        after = run_cases(MODEL, ['specplay\t%s\t%s' % (f, coord(mv)) for (i, f, mv) in mw_suspects], 'C06-after')
+        term = run_cases(MODEL, ['specterm\t' + (a or 'x') for a in after], 'C06-afterterm')
+        und = 0
+        for (i, f, mv), r, tm in zip(mw_suspects, kr2, term):
+            if r == 'illegal':
+                wrongmove.append((i, 'reported first move is illegal'))
+            elif tm == 'stale':
+                wrongmove.append((i, 'reported first move stalemates the opponent: it does not keep the forced mate'))
+            elif r != 'keeps':
+                und += 1
+        chk.extra['multi_worker_first_moves_beyond_solver_bound'] = und
+    chk.extra['multi_worker_first_moves_checked_deeper'] = len(mw_suspects)
     # soundness: (a) on positions with a solver-known mate the first move is checked above; (b) claims on other positions are
     # checked with a 5-ply solver where it can decide, otherwise counted as unverified; (c) exact: on material where no mate
     # exists (K v K, K+B v K, K+N v K) and for a lone king to move, ANY terminal evaluation is a false claim
@@ -1176,7 +1224,7 @@ def check_C06(chk, binp):
     for f in gbad[:2]:
         chk.violation('the driver solver disagrees with GameValue.win on %s' % f, {'kind': 'correspondence', 'fen': f}, found_input=False)
     chk.streams.append({'name': 'completeness: forced mate in n plies found at depth n..n+2 (1..32 workers)', 'against': 'forced-mate solver over the extracted rules', 'cases': sum(1 for m in meta if m[1] is not None), 'disagreements': len(incomplete)})
-    chk.streams.append({'name': 'one worker: reported first move keeps the forced mate', 'against': 'forced-mate solver over the extracted rules', 'cases': sum(1 for m in meta if m[1] is not None and m[4] == 1), 'disagreements': len(wrongmove)})
+    chk.streams.append({'name': 'reported first move keeps the forced mate (decided by the solver within 8 plies; stalemating / illegal first moves are violations)', 'against': 'forced-mate solver over the extracted rules', 'cases': sum(1 for m in meta if m[1] is not None), 'disagreements': len(wrongmove)})
     chk.streams.append({'name': 'soundness: every winning terminal evaluation is a real forced mate kept by the first move', 'against': 'forced-mate solver over the extracted rules', 'cases': len(q), 'disagreements': len(unsound)})
     chk.evaluations += len(cases)
     chk.extra['mate_distance_histogram'] = hist([m[1] for m in meta if m[1] is not None])
